@@ -341,6 +341,287 @@ def c04_sleep(factor: float, bmax: float, nred: bool, jitter: float, rnd: float,
     return run(_sleep_body, factor, bmax, nred, jitter, rnd, ra_i, respect, has_resp)
 
 
+
+# ---- U / L: attempts on the wire (pool level, direct and behind proxies) ------------------------------------------------------
+
+import socket as _socket
+import errno as _errno
+
+from kit import net as N
+from kit import env as E
+from kit import tls as TLS
+from kit.h import decode_point
+from urllib3 import HTTPConnectionPool, ProxyManager
+from urllib3.exceptions import (HTTPError, MaxRetryError, ProtocolError, ReadTimeoutError, NewConnectionError, ConnectTimeoutError,
+                                ProxyError as _ProxyError, ResponseError)
+
+OUTCOMES = ["ok", "connect_refused", "connect_timeout", "reset_after_send", "eof_after_send", "garbage_status", "read_timeout",
+            "503_forcelisted", "503_retry_after", "413_retry_after", "500_plain"]
+CONNECT_CLASS = ("connect_refused", "connect_timeout")
+READ_CLASS = ("reset_after_send", "eof_after_send", "garbage_status", "read_timeout")
+STATUS_RETRY = ("503_forcelisted", "503_retry_after", "413_retry_after")
+TOPOS = ["direct", "forwarding proxy", "tunnel via http proxy"]
+METHODS_U = ["GET", "POST", "PUT", "PATCH", "DELETE"]
+IDEMPOTENT = {"GET", "PUT", "DELETE", "HEAD", "OPTIONS", "TRACE"}
+
+
+class AttemptPeer(N.BaseHandler):
+    """The n-th connection attempt / request (over all sockets) gets script[n]; counts what reached the wire."""
+
+    def __init__(self, script, topo):
+        self.script = script
+        self.topo = topo
+        self.i = 0              # index of the attempt being served
+        self.requests = []      # (attempt index, method) of complete requests that reached the peer
+        self.state = {}
+
+    def cur(self):
+        return self.script[min(self.i, len(self.script) - 1)]
+
+    def on_connect(self, net, sock):
+        o = self.cur()
+        if o == "connect_refused":
+            self.i += 1
+            raise ConnectionRefusedError(_errno.ECONNREFUSED, "refused")
+        if o == "connect_timeout":
+            self.i += 1
+            raise _socket.timeout("timed out")
+
+    def on_send(self, sock, data):
+        st = self.state.setdefault(sock.id, {"got": b"", "pos": 0, "queue": [], "eof": False})
+        st["got"] += data
+        while True:
+            buf = st["got"][st["pos"]:]
+            end = buf.find(b"\r\n\r\n")
+            if end < 0:
+                break
+            head = buf[:end]
+            # bodies in this harness are tiny and follow immediately: wait for Content-Length bytes
+            cl = 0
+            for ln in head.split(b"\r\n")[1:]:
+                if ln.lower().startswith(b"content-length:"):
+                    cl = int(ln.split(b":")[1])
+            if len(buf) < end + 4 + cl:
+                break
+            st["pos"] += end + 4 + cl
+            if head.startswith(b"CONNECT "):
+                sock.tunnel_established = True
+                sock.tunnel_target = None
+                st["queue"].append(b"HTTP/1.0 200 OK\r\n\r\n")
+                continue
+            method = head.split(b" ")[0].decode()
+            o = self.cur()
+            self.requests.append((self.i, method))
+            self.i += 1
+            if o == "reset_after_send":
+                st["queue"].append(ConnectionResetError(_errno.ECONNRESET, "reset"))
+            elif o == "eof_after_send":
+                st["queue"].append(b"")
+            elif o == "garbage_status":
+                st["queue"].append(b"\x00\x01 not http at all\r\n\r\n")
+                st["queue"].append(b"")
+            elif o == "read_timeout":
+                st["queue"].append(_socket.timeout("timed out"))
+            elif o == "503_forcelisted":
+                st["queue"].append(N.response_bytes(503, "X", body=b""))
+            elif o == "503_retry_after":
+                st["queue"].append(N.response_bytes(503, "X", headers=[("Retry-After", "2")], body=b""))
+            elif o == "413_retry_after":
+                st["queue"].append(N.response_bytes(413, "X", headers=[("Retry-After", "1")], body=b""))
+            elif o == "500_plain":
+                st["queue"].append(N.response_bytes(500, "X", body=b""))
+            else:
+                st["queue"].append(N.response_bytes(200, "OK", body=b"ok"))
+
+    def on_read(self, sock):
+        st = self.state.setdefault(sock.id, {"got": b"", "pos": 0, "queue": [], "eof": False})
+        if st["eof"]:
+            return b""
+        if st["queue"]:
+            x = st["queue"].pop(0)
+            if isinstance(x, BaseException):
+                st["eof"] = True
+                raise x
+            if x == b"":
+                st["eof"] = True
+            return x
+        return b""
+
+    def readable(self, sock):
+        st = self.state.get(sock.id)
+        return bool(st and (st["queue"] or st["eof"]))
+
+
+class SpyRetry(Retry):
+    LOG = None
+
+
+_REAL_INCREMENT = Retry.increment
+
+
+def _logging_increment(self, method=None, url=None, response=None, error=None, _pool=None, _stacktrace=None):
+    """Observation only: every Retry.increment call (also of the plain Retry built from an int) is recorded."""
+    rec = {"method": method, "error": error, "status": getattr(response, "status", None),
+           "before": (self.total, self.connect, self.read, self.status, self.other)}
+    if SpyRetry.LOG is not None:
+        SpyRetry.LOG.append(rec)
+    new = _REAL_INCREMENT(self, method=method, url=url, response=response, error=error, _pool=_pool, _stacktrace=_stacktrace)
+    rec["after"] = new
+    return new
+
+
+def attempt_dims(part):
+    outs = part["outcomes"]
+    hist = [[a] for a in outs] + [[a, b] for a in outs if a != "ok" for b in outs]
+    if part.get("three"):
+        hist += [[a, b, c] for a in outs if a != "ok" for b in ("reset_after_send", "connect_refused", "503_forcelisted") for c in ("ok", "reset_after_send")]
+    return [part["topos"], part["methods"], hist, part["rkinds"]]
+
+
+def _attempt_point(idx):
+    topo, mi, hist, rkind = decode_point(idx, attempt_dims)
+    return N._untraced(_attempts)(topo, mi, hist, rkind)
+
+
+def _attempts(topo, mi, hist, rkind):
+    """rkind: 0 retries=False; 1 Retry(total=1); 2 Retry(total=2, connect=1, read=1, status=1, other=1); 3 Retry(total=3, read=0)
+    4 Retry(total=5, allowed_methods=None [retry every method]); 5 integer 2"""
+    method = METHODS_U[mi]
+    script = list(hist) + ["ok"]
+    peer = AttemptPeer(script, topo)
+    netw = N.install(peer)
+    clock = E.install_clock()
+    cert = TLS.Cert("default", (("DNS", "*"),))
+    TLS_nameok = TLS._name_ok
+    TLS._name_ok = lambda c, h, cn: True
+    TLS.install(TLS.Script({}, cert), "ssl", True)
+    SpyRetry.LOG = []
+    Retry.increment = _logging_increment
+    try:
+        mk = {1: dict(total=1), 2: dict(total=2, connect=1, read=1, status=1, other=1), 3: dict(total=3, read=0),
+              4: dict(total=5, allowed_methods=None)}
+        if rkind == 0:
+            retries = False
+        elif rkind == 5:
+            retries = 2
+        else:
+            retries = SpyRetry(status_forcelist=[503] if "503_forcelisted" in hist else None, backoff_factor=0, **mk[rkind])
+        body = b"x=1" if method in ("POST", "PUT", "PATCH") else None
+        exc = None
+        resp = None
+        try:
+            if topo == 0:
+                resp = HTTPConnectionPool("h", 80).urlopen(method, "/p", body=body, retries=retries)
+            elif topo == 1:
+                resp = ProxyManager("http://proxy.example:3128").urlopen(method, "http://h/p", body=body, retries=retries, redirect=False)
+            else:
+                resp = ProxyManager("http://proxy.example:3128").urlopen(method, "https://h/p", body=body, retries=retries, redirect=False)
+        except HTTPError as e:
+            exc = e
+        sent = [m for (_, m) in peer.requests]
+        nsent = len(sent)
+        # ---- reference ----
+        if rkind == 0:
+            budget_total = 0
+        elif rkind == 5:
+            budget_total = 2
+        else:
+            budget_total = mk[rkind]["total"]
+        if nsent > 1 + budget_total:
+            return _fail("%d requests on the wire, total budget %d (history %r, %s)" % (nsent, budget_total, hist, method))
+        allowed = True if rkind == 4 else (method in IDEMPOTENT)
+        first = hist[0]
+        # (1) retries=False: the first failure surfaces at once, nothing is sent again; statuses are simply returned
+        if rkind == 0:
+            if nsent > 1:
+                return _fail("retries=False but %d requests were sent (history %r)" % (nsent, hist))
+            if first in CONNECT_CLASS + READ_CLASS:
+                if exc is None or isinstance(exc, MaxRetryError):
+                    return _fail("retries=False: expected the original urllib3 error for %s, got %r / %r" % (first, resp, exc))
+            elif exc is not None:
+                return _fail("retries=False: %s should be returned as a response, got %r" % (first, exc))
+            mark("retries=False")
+            return True
+        # (2) a request whose method is outside allowed_methods is never re-sent after it may have reached the server
+        f1 = (topo in (1, 2) and first in READ_CLASS and SpyRetry.LOG and isinstance(SpyRetry.LOG[0]["error"], _ProxyError))
+        if not allowed and first in READ_CLASS + STATUS_RETRY:
+            if f1 and known("F1"):
+                return True       # everything that follows (re-send, MaxRetryError instead of the original error) is F1
+            if nsent > 1:
+                why = "re-sent %s after %s (history %r, topology %s, %d requests)" % (method, first, hist, TOPOS[topo], nsent)
+                log = SpyRetry.LOG
+                # known finding F1: behind a proxy http.client closes the connection on a read-phase error, which resets the
+                # has-connected-to-proxy flag; urlopen then reports the error as ProxyError and counts it under `other`
+                if topo in (1, 2) and first in READ_CLASS and log and isinstance(log[0]["error"], _ProxyError) and known("F1"):
+                    return True
+                return _fail(why)
+            if first in READ_CLASS:
+                if exc is None or isinstance(exc, MaxRetryError):
+                    return _fail("non-idempotent %s after %s: the original error must be re-raised, got %r / %r" % (method, first, resp, exc))
+            mark("non-idempotent spared")
+            return True
+        # (3) classification of every increment
+        log = SpyRetry.LOG
+        if log is not None:
+            k = 0
+            for n, o in enumerate(script):
+                if o == "ok" or o == "500_plain":
+                    break
+                if k >= len(log):
+                    break
+                err = log[k]["error"]
+                st = log[k]["status"]
+                if o in CONNECT_CLASS:
+                    inner = err.original_error if isinstance(err, _ProxyError) else err
+                    okc = isinstance(inner, (NewConnectionError, ConnectTimeoutError))
+                    if topo != 0 and not isinstance(err, _ProxyError):
+                        return _fail("proxy unreachable (%s) must be a ProxyError, got %r" % (o, err))
+                    if not okc:
+                        return _fail("%s classified as %r" % (o, err))
+                elif o in READ_CLASS:
+                    want = ReadTimeoutError if o == "read_timeout" else ProtocolError
+                    if not isinstance(err, want):
+                        if topo in (1, 2) and isinstance(err, _ProxyError) and known("F1"):
+                            return True
+                        return _fail("%s after the request was written must be %s, got %r (topology %s)" % (o, want.__name__, err, TOPOS[topo]))
+                else:
+                    if err is not None or st not in (503, 413):
+                        return _fail("%s: increment(error=%r, status=%r)" % (o, err, st))
+                k += 1
+                # did the budget allow another attempt?
+                if not isinstance(log[k - 1].get("after"), Retry):
+                    break
+        # (4) termination / exhaustion surfaces as MaxRetryError (or the last response)
+        if exc is not None and not isinstance(exc, (MaxRetryError, ProtocolError, ReadTimeoutError, _ProxyError, NewConnectionError, ConnectTimeoutError)):
+            return _fail("unexpected failure %r" % (exc,))
+        # sleeps: only Retry-After values (statuses 413/503 with the header) or backoff 0
+        for sl in clock.sleeps:
+            if sl not in (0, 1, 2) or sl < 0:
+                return _fail("slept %r" % (sl,))
+            if sl in (1, 2) and not any(o in ("503_retry_after", "413_retry_after") for o in hist):
+                return _fail("slept %r without a Retry-After response" % (sl,))
+        mark("attempts=%d" % nsent)
+        return True
+    finally:
+        Retry.increment = _REAL_INCREMENT
+        SpyRetry.LOG = None
+        TLS._name_ok = TLS_nameok
+        TLS.uninstall()
+        N.uninstall()
+        E.uninstall_clock()
+
+
+def c04_attempts(idx: int) -> bool:
+    """
+    pre: 0 <= idx < P.n
+    post: _
+    """
+    return run(_attempt_point, idx)
+
+
+DIMS = {"c04_attempts": attempt_dims}
+
+
 def JOBS(tier):
     quick = tier == "quick"
     jobs = []
@@ -366,6 +647,11 @@ def JOBS(tier):
                               "rf": [False, True]}})
         if not quick:
             jobs.append({"func": "c04_increment_small", "timeout": t, "part": {"event": ei, "mask": 63}})
+    for topo in (0, 1, 2):
+        for rk in range(6):
+            jobs.append({"func": "c04_attempts", "timeout": t, "path_timeout": 60, "samples": 1,
+                         "part": {"topos": [topo], "methods": [0, 1, 2] if quick else [0, 1, 2, 3, 4], "outcomes": OUTCOMES,
+                                  "rkinds": [rk], "three": not quick}})
     jobs.append({"func": "c04_from_int", "timeout": t, "part": {}})
     jobs.append({"func": "c04_is_retry", "timeout": t, "part": {}})
     for n in ((0, 1, 2, 4) if quick else range(0, 13)):
@@ -376,7 +662,10 @@ def JOBS(tier):
 
 
 EVIDENCE = {
-    "bounds": {"quick": "R: Retry.increment for 9 event kinds x every set of <=2 non-None counters (+ sets {total, own category, "
+    "bounds": {"quick": "U/L: attempt histories of length 1-2 (every pair of 11 outcomes: connect refused/timeout, reset/EOF/garbage/timeout after the "
+                        "request was written, forcelisted 503, 503/413 with Retry-After, 500, 200) x {GET,POST,PUT} x 6 policies (False, total "
+                        "1, all categories 1, read=0, every method allowed, plain int) x direct / forwarding proxy / CONNECT tunnel, with a "
+                        "spying Retry and a counting peer; R: Retry.increment for 9 event kinds x every set of <=2 non-None counters (+ sets {total, own category, "
                         "one more}) with UNBOUNDED symbolic integer values, False-valued total/connect/read, 4 allowed_methods "
                         "kinds x GET/POST; from_int and is_retry with unbounded ints; S: sleeps for history tails 0..5, integer "
                         "backoff factor/max/jitter arbitrary finite non-negative floats, random() arbitrary in [0,1), 7 Retry-After texts",
